@@ -491,6 +491,45 @@ fn large(ctx: &mut Ctx) {
             });
         }
     }
+    // the size the string-table section reports for itself is not consulted by name resolution: names resolve the
+    // same whatever it says (0, smaller than a name index, exact, huge)
+    ctx.bound("strtab_reported_size", "two in-use sections + the string table, both layouts, the string-table header's own size field over {0, 1, 5, 6, 11, exact, exact + 1, 0xFFFFFFFF} x name indices {0, 5, 11, 19}: names resolve through the table's address whatever size it reports");
+    for layout in [64u32, 40] {
+        for &sz in &[0u64, 1, 5, 6, 11, STRTAB.len() as u64, STRTAB.len() as u64 + 1, 0xFFFF_FFFF] {
+            for &ni in &[0u32, 5, 11, 19] {
+                let describe = || J::obj().set("part", "strtab_reported_size").set("layout", layout).set("reported_size", sz).set("name_index", ni);
+                ctx.leaf(describe, |ctx| {
+                    ctx.state_direct();
+                    ctx.nontrivial();
+                    st.fill(0xEE);
+                    let base = st.place_right(STRTAB) as u64;
+                    let stride = layout as usize;
+                    let mut sec = vec![0u8; 3 * stride];
+                    for i in 0..3usize {
+                        let (name, t, addr, size) = if i == 2 { (30u32, 3u32, base, sz) } else { (if i == 0 { ni } else { 5 }, 1, 0x1000 + i as u64, 0x20) };
+                        let e = if layout == 40 { bi::enc_shdr32(name, t, 2, addr as u32, 0, size as u32, 0, 0, 4, 0) } else { bi::enc_shdr64(name, t, 2, addr, 0, size, 0, 0, 4, 0) };
+                        sec[i * stride..(i + 1) * stride].copy_from_slice(&e);
+                    }
+                    let mut img = bi::enc_elf(3, layout, 2, &sec);
+                    while img.len() % 8 != 0 {
+                        img.push(0xF5);
+                    }
+                    big.fill(arena::FILL_A);
+                    let p = big.place_right(&img);
+                    let slice: &[u8] = unsafe { std::slice::from_raw_parts(p, img.len()) };
+                    let tag = Generic::ref_from_slice(slice).unwrap().cast::<ElfSectionsTag>();
+                    let r = ctx.call("sections + names", || tag.sections().map(|s| s.name().map(|x| x.to_string()).unwrap_or_else(|_| "<utf8>".into())).collect::<Vec<_>>());
+                    let nm = |start: usize| String::from_utf8_lossy(&STRTAB[start..start + STRTAB[start..].iter().position(|&b| b == 0).unwrap()]).to_string();
+                    let want = vec![nm(ni as usize), nm(5), nm(30)];
+                    match r {
+                        Out::Val(got) if got == want => ctx.class("elf:strtab-size-ignored"),
+                        Out::Val(got) => ctx.violation("c19/strtab-size/names", || format!("string table reporting size {}: names {:?}, expected {:?}", sz, got, want)),
+                        Out::Panic => ctx.violation("c19/strtab-size/spurious-panic", || format!("name() panicked with a string table that reports size {} and name index {}", sz, ni)),
+                    }
+                });
+            }
+        }
+    }
     let mut lens: Vec<usize> = if ctx.quick() { vec![0, 1, 31, 32, 127, 128, 254, 255, 256, 257, 4096, 65535, 65536] } else { (0..=300).collect() };
     if !ctx.quick() {
         lens.extend([511, 512, 513, 1023, 1024, 1025, 4095, 4096, 4097, 32767, 32768, 65534, 65535, 65536, 65537, 70000]);
